@@ -1342,3 +1342,298 @@ struct FourTuple {
     // A single socket can only listen on a single port, so no need to store it explicitly
     local_ip: Option<IpAddr>,
 }
+
+/// Verification hooks for the routing tables (`ConnectionIndex`, `ConnectionMeta`, the slabs).
+/// Add-only, used by `connection::verif::cindex`; nothing in the library calls this.
+#[cfg(feature = "quinn_rs_quinn_verif")]
+pub(crate) mod verif_hooks {
+    use super::*;
+    use crate::connection::verif::hex;
+
+    /// What `Endpoint::handle` decoded and where `ConnectionIndex::get` routes it
+    pub(crate) struct Routed {
+        pub(crate) dst_cid: ConnectionId,
+        /// `initial`, `zrtt`, `long` (Handshake / Retry / VersionNegotiate) or `short`
+        pub(crate) kind: &'static str,
+        /// length of `PartialDecode::data()` (the first packet of the datagram)
+        pub(crate) data_len: usize,
+        /// `none`, `incoming <idx>` or `conn <handle>`
+        pub(crate) route: String,
+    }
+
+    pub(crate) enum FirstPacket {
+        /// the datagram did not decode
+        Undecodable,
+        /// an existing connection / pending incoming took the datagram, or it is not an Initial
+        Routed(Routed),
+        /// `handle_first_packet` registered a new pending connection attempt
+        New(Routed, usize, Incoming),
+    }
+
+    fn addr(a: &SocketAddr) -> String {
+        match a.ip() {
+            IpAddr::V4(ip) => format!("{}:{}", u32::from(ip), a.port()),
+            IpAddr::V6(_) => format!("v6:{}", a.port()),
+        }
+    }
+
+    fn tuple(t: &FourTuple) -> String {
+        match t.local_ip {
+            None => format!("{}/-", addr(&t.remote)),
+            Some(IpAddr::V4(ip)) => format!("{}/{}", addr(&t.remote), u32::from(ip)),
+            Some(IpAddr::V6(_)) => format!("{}/v6", addr(&t.remote)),
+        }
+    }
+
+    fn route_str(r: Option<RouteDatagramTo>) -> String {
+        match r {
+            None => "none".into(),
+            Some(RouteDatagramTo::Incoming(i)) => format!("incoming {i}"),
+            Some(RouteDatagramTo::Connection(ch)) => format!("conn {}", ch.0),
+        }
+    }
+
+    impl Endpoint {
+        /// First half of `Endpoint::handle` (lines `PartialDecode::new` .. `self.index.get`):
+        /// calls the real decoder and the real routing cascade, changes nothing.
+        pub(crate) fn verif_route(
+            &self,
+            remote: SocketAddr,
+            local_ip: Option<IpAddr>,
+            data: BytesMut,
+        ) -> Option<Routed> {
+            let (first_decode, _) = PartialDecode::new(
+                data,
+                &FixedLengthConnectionIdParser::new(self.local_cid_generator.cid_len()),
+                &self.config.supported_versions,
+                self.config.grease_quic_bit,
+            )
+            .ok()?;
+            let addresses = FourTuple { remote, local_ip };
+            let route = self.index.get(&addresses, &first_decode);
+            Some(Routed {
+                dst_cid: first_decode.dst_cid(),
+                kind: if first_decode.is_initial() {
+                    "initial"
+                } else if first_decode.is_0rtt() {
+                    "zrtt"
+                } else if first_decode.has_long_header() {
+                    "long"
+                } else {
+                    "short"
+                },
+                data_len: first_decode.data().len(),
+                route: route_str(route),
+            })
+        }
+
+        /// `Endpoint::handle` for a datagram whose first packet is an Initial, with the
+        /// cryptographic steps of `handle_first_packet` left out (keys are supplied by the caller,
+        /// the packet is taken as already unprotected, no token): routes through the real
+        /// `ConnectionIndex::get`; only when that finds nothing (exactly the condition under which
+        /// `handle` calls `handle_first_packet`) performs the table updates of
+        /// `handle_first_packet` (`incoming_buffers.insert` + `index.insert_initial_incoming`) and
+        /// builds the `Incoming` that the real `accept` / `refuse` / `ignore` consume.
+        pub(crate) fn verif_first_packet(
+            &mut self,
+            now: Instant,
+            remote: SocketAddr,
+            local_ip: Option<IpAddr>,
+            data: BytesMut,
+            payload: BytesMut,
+            crypto: Keys,
+        ) -> FirstPacket {
+            let Some(routed) = self.verif_route(remote, local_ip, data.clone()) else {
+                return FirstPacket::Undecodable;
+            };
+            if routed.route != "none" || routed.kind != "initial" {
+                return FirstPacket::Routed(routed);
+            }
+            let (first_decode, rest) = PartialDecode::new(
+                data,
+                &FixedLengthConnectionIdParser::new(self.local_cid_generator.cid_len()),
+                &self.config.supported_versions,
+                self.config.grease_quic_bit,
+            )
+            .unwrap();
+            let addresses = FourTuple { remote, local_ip };
+            let ph = first_decode.initial_header().unwrap().clone();
+            let header = InitialHeader {
+                dst_cid: ph.dst_cid,
+                src_cid: ph.src_cid,
+                token: Bytes::new(),
+                number: PacketNumber::U8(0),
+                version: ph.version,
+            };
+            let token = IncomingToken {
+                retry_src_cid: None,
+                orig_dst_cid: header.dst_cid,
+                validated: false,
+            };
+            // handle_first_packet, verbatim from here
+            let incoming_idx = self.incoming_buffers.insert(IncomingBuffer::default());
+            self.index
+                .insert_initial_incoming(header.dst_cid, incoming_idx);
+            FirstPacket::New(
+                routed,
+                incoming_idx,
+                Incoming {
+                    received_at: now,
+                    addresses,
+                    ecn: None,
+                    packet: InitialPacket {
+                        header,
+                        header_data: Bytes::new(),
+                        payload,
+                    },
+                    // (`handle_first_packet` passes `event.remaining` on; the executor never
+                    // coalesces anything behind a first Initial)
+                    rest: rest.filter(|_| false),
+                    crypto,
+                    token,
+                    incoming_idx,
+                    improper_drop_warner: IncomingImproperDropWarner,
+                },
+            )
+        }
+
+        /// Canonical, sorted rendering of every routing table, every `ConnectionMeta` and both
+        /// slabs (one string per entry; the caller joins / hashes them)
+        pub(crate) fn verif_dump(&self) -> Vec<String> {
+            fn sorted(mut v: Vec<String>) -> String {
+                v.sort();
+                v.join(",")
+            }
+            let ix = &self.index;
+            let mut out = Vec::new();
+            out.push(format!(
+                "I{{{}}}",
+                sorted(
+                    ix.connection_ids_initial
+                        .iter()
+                        .map(|(k, v)| format!(
+                            "{}={}",
+                            hex(k),
+                            match v {
+                                RouteDatagramTo::Incoming(i) => format!("i{i}"),
+                                RouteDatagramTo::Connection(ch) => format!("c{}", ch.0),
+                            }
+                        ))
+                        .collect()
+                )
+            ));
+            out.push(format!(
+                "C{{{}}}",
+                sorted(
+                    ix.connection_ids
+                        .iter()
+                        .map(|(k, v)| format!("{}={}", hex(k), v.0))
+                        .collect()
+                )
+            ));
+            out.push(format!(
+                "R{{{}}}",
+                sorted(
+                    ix.incoming_connection_remotes
+                        .iter()
+                        .map(|(k, v)| format!("{}={}", tuple(k), v.0))
+                        .collect()
+                )
+            ));
+            out.push(format!(
+                "O{{{}}}",
+                sorted(
+                    ix.outgoing_connection_remotes
+                        .iter()
+                        .map(|(k, v)| format!("{}={}", addr(k), v.0))
+                        .collect()
+                )
+            ));
+            let mut toks = Vec::new();
+            for (remote, inner) in &ix.connection_reset_tokens.0 {
+                // `ResetTokenTable::remove` drops empty inner maps
+                if inner.is_empty() {
+                    toks.push(format!("{}/EMPTY", addr(remote)));
+                }
+                for (tok, ch) in inner {
+                    toks.push(format!("{}/{}={}", addr(remote), hex(tok), ch.0));
+                }
+            }
+            out.push(format!(
+                "T{}{{{}}}",
+                ix.connection_reset_tokens.0.len(),
+                sorted(toks)
+            ));
+            let mut metas = Vec::new();
+            for (h, m) in self.connections.iter() {
+                let mut loc: Vec<(u64, String)> =
+                    m.loc_cids.iter().map(|(s, c)| (*s, hex(c))).collect();
+                loc.sort();
+                metas.push(format!(
+                    "{h:04}:init={} issued={} side={} addr={} tok={} loc=[{}]",
+                    hex(&m.init_cid),
+                    m.cids_issued,
+                    if m.side.is_server() { "S" } else { "C" },
+                    tuple(&m.addresses),
+                    match &m.reset_token {
+                        None => "-".to_string(),
+                        Some((r, t)) => format!("{}/{}", addr(r), hex(t)),
+                    },
+                    loc.iter()
+                        .map(|(s, c)| format!("{s}:{c}"))
+                        .collect::<Vec<_>>()
+                        .join(" ")
+                ));
+            }
+            out.push(format!("M{{{}}}", sorted(metas)));
+            out.push(format!(
+                "slab={}/{}",
+                self.connections.len(),
+                self.connections.vacant_key()
+            ));
+            let mut inc: Vec<String> = self
+                .incoming_buffers
+                .iter()
+                .map(|(i, _)| format!("{i:04}"))
+                .collect();
+            inc.sort();
+            out.push(format!(
+                "P{{{}}}/{}",
+                inc.join(","),
+                self.incoming_buffers.vacant_key()
+            ));
+            out
+        }
+
+        /// table sizes: initial, cids, incoming remotes, outgoing remotes, reset tokens
+        /// (entries), reset-token remotes, connections, pending incoming
+        pub(crate) fn verif_sizes(&self) -> [usize; 8] {
+            [
+                self.index.connection_ids_initial.len(),
+                self.index.connection_ids.len(),
+                self.index.incoming_connection_remotes.len(),
+                self.index.outgoing_connection_remotes.len(),
+                self.index
+                    .connection_reset_tokens
+                    .0
+                    .values()
+                    .map(|m| m.len())
+                    .sum(),
+                self.index.connection_reset_tokens.0.len(),
+                self.connections.len(),
+                self.incoming_buffers.len(),
+            ]
+        }
+    }
+
+    impl Incoming {
+        pub(crate) fn verif_idx(&self) -> usize {
+            self.incoming_idx
+        }
+
+        /// replace the (already unprotected) payload of the first Initial
+        pub(crate) fn verif_set_payload(&mut self, payload: &[u8]) {
+            self.packet.payload = BytesMut::from(payload);
+        }
+    }
+}
